@@ -406,7 +406,13 @@ func (p *parser) readError(idl *IDL) (*Error, error) {
 	}
 
 	p.advanceOnLine()
+	start := p.position
 	e.Type = p.readType()
+	if e.Type == nil && p.position != start {
+		// something that is not a type follows the name on the same line:
+		// do not silently drop it
+		return nil, fmt.Errorf("invalid error type")
+	}
 
 	return e, nil
 }
